@@ -1,6 +1,7 @@
 """Shared rules over Registry / Interner / PortableRegistry(Builder): used by C01, C05, C11, C12.
 Every function records obligations into the Check it is given."""
-from ..lib import mir, paths, who, loops
+from ..lib import mir, paths, who, loops, facts
+from ..lib import mir as M
 from ..lib.mir import path_str, is_call, uncast, unref, is_adt_agg, agg_field
 
 REG = "scale_info::registry::Registry"
@@ -535,7 +536,78 @@ def check_finish(chk, prog, cfg, rule="R1.6"):
 
 # -------------------------------------------------------------------------- profile independence / totality (source level)
 PURE_IN_ASSERT = {"is_some", "is_none", "is_ok", "is_err", "len", "is_empty", "contains_key", "contains", "get", "eq", "ne", "as_ref", "iter", "all", "any",
-                  "first", "last", "starts_with", "ends_with", "is_ascii", "as_str", "as_bytes", "deref", "borrow", "cmp", "partial_cmp", "is_phantom", "type_id"}
+                  "first", "last", "starts_with", "ends_with", "is_ascii", "as_str", "as_bytes", "deref", "borrow", "cmp", "partial_cmp", "is_phantom", "type_id",
+                  # std combinators taking closures (the closure's own calls are in the same token stream and are judged too)
+                  "map_or", "map", "is_some_and", "is_none_or", "is_ok_and", "filter", "and_then", "unwrap_or", "unwrap_or_default", "copied", "cloned", "max", "min",
+                  "count", "keys", "values", "enumerate", "zip", "windows", "is_sorted", "position", "find", "rev", "skip", "chain", "flat_map", "flatten",
+                  "into_iter", "peekable", "as_slice", "as_deref", "id", "elements", "types", "matches", "u32", "usize", "from", "try_from", "into"}
+
+
+_PURE_CACHE = {}
+
+
+def _pure_local_helper(name):
+    """A private helper called from an assertion is effect free when, in every function of the library with that name, no parameter type mentions `&mut` /
+    a raw pointer / a cell, and its body (transitively through crate-local callees) calls no function pointer, no `type_info`, and nothing that takes `&mut`
+    to anything but its own locals -- the library has no statics and no interior mutability, so such a function can only read."""
+    if name in _PURE_CACHE:
+        return _PURE_CACHE[name]
+    prog = M.Program(facts.load_mir(facts.CONFIGS["all"]))
+    cands = [p for p, f in prog.fns.items() if f.get("name") == name and f["kind"] in ("Fn", "AssocFn")]
+    ok = bool(cands) and all(_fn_pure(prog, p, set()) for p in cands)
+    _PURE_CACHE[name] = ok
+    return ok
+
+
+def _fn_pure(prog, path, seen):
+    if path in seen:
+        return True
+    seen.add(path)
+    f = prog.fns.get(path)
+    b = prog.body(path)
+    if f is None or b is None:
+        return False
+
+    def shared(t):
+        return (t["k"] == "ref" and t.get("m")) or t["k"] in ("ptr", "fnptr", "fnptr_ty") or (t["k"] == "adt" and ("cell" in t["d"] or "atomic" in t["d"]))
+    if any(prog.ty_mentions(i, shared) for i in f.get("inputs", [])):
+        return False
+    for _, t in b.calls():
+        callee = t.get("resolved") or t.get("callee")
+        if callee is None:
+            return False  # indirect call (function pointer: MetaType::type_info's stored fn)
+        n = M.strip_generics(callee)
+        if n.split("::")[-1] in ("type_info", "meta_type", "register_type", "register_types"):
+            return False
+        if n.startswith(prog.crate + "::") or n.startswith("<" + prog.crate):
+            tgt = callee if callee in prog.fns else None
+            if tgt is None:
+                c2 = [p for p in prog.fns if M.strip_generics(p) == n]
+                tgt = c2[0] if len(c2) == 1 else None
+            if tgt is None or not _fn_pure(prog, tgt, seen):
+                return False
+    for cl in prog.closures_by_root.get(path, []):
+        if not _fn_pure_closure(prog, cl, seen):
+            return False
+    return True
+
+
+def _fn_pure_closure(prog, path, seen):
+    b = prog.body(path)
+    if b is None:
+        return False
+    for _, t in b.calls():
+        callee = t.get("resolved") or t.get("callee")
+        if callee is None:
+            return False
+        n = M.strip_generics(callee)
+        if n.split("::")[-1] in ("type_info", "meta_type", "register_type", "register_types"):
+            return False
+        if n.startswith(prog.crate + "::") or n.startswith("<" + prog.crate):
+            c2 = [p for p in prog.fns if p == callee or M.strip_generics(p) == n]
+            if len(c2) != 1 or not _fn_pure(prog, c2[0], seen):
+                return False
+    return True
 
 
 def check_debug_asserts(chk, rule="R1.9"):
@@ -554,7 +626,7 @@ def check_debug_asserts(chk, rule="R1.9"):
             if lastp in ("debug_assert", "debug_assert_eq", "debug_assert_ne"):
                 n += 1
                 calls = set(_re.findall(r"([A-Za-z_][A-Za-z0-9_]*)\s*(?:::\s*<[^()]*>\s*)?\(", m.get("tokens", "")))
-                impure = sorted(c for c in calls if c not in PURE_IN_ASSERT and c not in ("Some", "None", "Ok", "Err"))
+                impure = sorted(c for c in calls if c not in PURE_IN_ASSERT and c not in ("Some", "None", "Ok", "Err") and not _pure_local_helper(c))
                 if impure:
                     bad += 1
                     chk.fail(rule, "debug-assert-calls:%s:%s" % (f["file"], ",".join(impure)[:60]), "src/%s:%s" % (f["file"], m["line"]),
